@@ -2,7 +2,8 @@
    Statements only (proofs: Proofs/Reassign.v; model: Model/Reassign.v). *)
 From Coq Require Import QArith ZArith List Bool Arith.
 Import ListNotations.
-Require Import Plinio.Base.Qx Plinio.Model.Reassign Plinio.Proofs.Reassign.
+From Coq Require Import Permutation.
+Require Import Plinio.Base.Qx Plinio.Model.Reassign Plinio.Proofs.Reassign Plinio.Proofs.ReassignGen.
 Local Open Scope nat_scope.
 
 (* The two searches of optimize_prec_assignment, for EVERY cost function of the per-precision channel
@@ -24,16 +25,22 @@ Proof. exact up_total. Qed.
 Theorem C20_up_upper : forall v w, up v w -> forall k, upper k v <= upper k w.
 Proof. exact up_upper. Qed.
 
-(* The reassignment step assigns every channel exactly one precision and meets every count.
-   PARTIAL: proved by exhaustive evaluation for the sizes (precisions, channels) listed in
-   small_sizes (up to 4 x 3 and 2 x 4), over every current assignment, every tuple of channel
-   rankings and every composition of the channel count; the statement for arbitrary sizes
-   (reassign_total: forall P C ...) is not proved yet. *)
-Theorem C20_reassign_total_partial : forall P C cur orders best,
-  In (P, C) small_sizes ->
-  In cur (lists C (seq 0 P)) -> In orders (lists P (perms (seq 0 C))) -> In best (compositions P C) ->
+(* The reassignment step assigns every channel exactly one precision and meets every count, for EVERY
+   number of precisions P and channels C, every current assignment in range, every tuple of rankings
+   (each a permutation of the channels) and every target vector that sums to the number of channels. *)
+Theorem C20_reassign_total : forall (P C : nat) (cur : list nat) (orders : list (list nat)) (best : list nat),
+  length cur = C -> Forall (fun p => p < P) cur ->
+  length orders = P -> Forall (fun o => Permutation o (seq 0 C)) orders ->
+  length best = P -> fold_right Nat.add 0 best = C ->
   reassign_ok (reassign_abs cur orders best) best = true.
-Proof. exact reassign_ok_bounded. Qed.
+Proof. exact reassign_total. Qed.
+
+(* the same for the concrete entry point: any P x C score matrix (arg-max per channel, arg-sort per precision) *)
+Theorem C20_reassign_matrix_total : forall (P C : nat) (scores : list (list Q)) (best : list nat),
+  length scores = P -> 1 <= P -> Forall (fun row => length row = C) scores ->
+  length best = P -> fold_right Nat.add 0 best = C ->
+  reassign_ok (reassign scores best) best = true.
+Proof. exact reassign_matrix_total. Qed.
 
 (* the algorithm of the pinned upstream commit (reassign_v0) misses counts *)
 Theorem C20_upstream_reassign_refuted : exists scores best,
@@ -50,5 +57,6 @@ Print Assumptions C20_refine_cost_le.
 Print Assumptions C20_refine_up.
 Print Assumptions C20_up_total.
 Print Assumptions C20_up_upper.
-Print Assumptions C20_reassign_total_partial.
+Print Assumptions C20_reassign_total.
+Print Assumptions C20_reassign_matrix_total.
 Print Assumptions C20_upstream_reassign_refuted.
